@@ -32,11 +32,19 @@ def dataframe_to_symbols(table: 'pandas.DataFrame') -> List[Symbol]:  # noqa: F8
     fsic.tools.symbols_to_dataframe()
     """
 
+    from pandas import isna
+
     def convert_to_int_or_none(field: Any) -> Optional[int]:
         """Convert NaNs to `None`; `int` otherwise."""
         if np.isnan(field):
             return None
         return int(field)
+
+    def convert_to_str_or_none(field: Any) -> Optional[str]:
+        """Convert missing values (`None` stored as NaN/NA by `pandas`) back to `None`; leave strings unchanged."""
+        if isna(field):
+            return None
+        return field
 
     symbols = []
 
@@ -46,6 +54,10 @@ def dataframe_to_symbols(table: 'pandas.DataFrame') -> List[Symbol]:  # noqa: F8
         entry['type'] = Type(entry['type'])  # Convert to `enum`erated variable type
         entry['lags'] = convert_to_int_or_none(entry['lags'])
         entry['leads'] = convert_to_int_or_none(entry['leads'])
+
+        # Text fields are `None` for symbols without a name / equation
+        for key in ('name', 'equation', 'code'):
+            entry[key] = convert_to_str_or_none(entry[key])
 
         symbols.append(Symbol(**entry))
 
